@@ -26,8 +26,17 @@ Definition struct_fields (name : string) : list (string * bool) :=
   | None => []
   end.
 
-Definition obj_fields := struct_fields "ExchangeContent.marshalJSONObjectOrArray.data".
-Definition lit_fields := struct_fields "ExchangeContent.marshalJSONLiteral.data".
+(* a DTO is identified by fields only it has, not by its Go name: the struct(s) of the regenerated
+   tag table that carry ALL the anchor fields *)
+Definition has_field (fs : list (string * bool)) (f : string) : bool := existsb (fun x => String.eqb (fst x) f) fs.
+Definition structs_with (anchors : list string) : list (list (string * bool)) :=
+  List.map snd (List.filter (fun r => forallb (has_field (snd r)) anchors) JsonTags.json_structs).
+Definition the_struct_with (anchors : list string) : list (string * bool) :=
+  match structs_with anchors with fs :: _ => fs | [] => [] end.
+
+(* the two DTOs of ExchangeContent: containers carry children + optional, scalars scalarValue + optional *)
+Definition obj_fields := the_struct_with ["children"; "optional"].
+Definition lit_fields := the_struct_with ["scalarValue"; "optional"].
 
 (* an ExchangeContent node: token type, scalar value, children, and the remaining fields as
    an arbitrary assignment of already marshalled values *)
